@@ -14,10 +14,10 @@ Import ListNotations.
 (* Value: what Dials receives is the reverse translation of what the inner
    source produced for the translated type; the Dials built on it starts
    exactly like one fed natively with that value *)
-Theorem wrapped_value_transparent : forall fuel E ms fs defaults t inner ttr x v',
+Theorem wrapped_value_transparent : forall fuel E ms verify fs defaults t inner ttr x v',
   translate fuel ms t = Ok (ttr, x) -> inner ttr = Ok v' ->
   ts_value fuel E ms t inner = reverse fuel E ms x v' /\
-  dials_config fs defaults (ts_value fuel E ms t inner) = dials_config fs defaults (reverse fuel E ms x v').
+  dials_config fs defaults verify (ts_value fuel E ms t inner) = dials_config fs defaults verify (reverse fuel E ms x v').
 Proof.
   intros. split; [eapply ts_value_transparent | eapply ts_config_transparent]; eassumption.
 Qed.
@@ -26,22 +26,65 @@ Qed.
    monitor fed through the wrapped watch arguments goes through exactly the
    states of a monitor fed natively with the reverse-translated values, an
    un-reversible value being an error report in both *)
-Theorem wrapped_updates_transparent : forall fuel E ms fs defaults s x vs,
-  (rs <- wrapped_reports fuel E ms x vs ;; dials_run fs defaults s rs) =
-  (rs <- native_reports (map (reverse fuel E ms x) vs) ;; dials_run fs defaults s rs).
-Proof. exact updates_transparent. Qed.
+Theorem wrapped_updates_transparent : forall fuel E ms verify fs defaults s x vs,
+  (rs <- wrapped_reports fuel E ms x vs ;; dials_run fs defaults verify s rs) =
+  (rs <- native_reports (map (reverse fuel E ms x) vs) ;; dials_run fs defaults verify s rs).
+Proof. intros. apply updates_transparent. Qed.
 
 (* an un-reversible value is reported as an error and the view stays; a
    reversible one is forwarded reverse-translated *)
-Theorem unreversible_update_is_an_error : forall fuel E ms fs defaults s x v c,
+Theorem unreversible_update_is_an_error : forall fuel E ms verify fs defaults s x v c,
   reverse fuel E ms x v = Err c ->
-  (r <- ts_report fuel E ms x v ;; dials_step fs defaults s r) = Ok (DS (d_view s) (d_errors s + 1)).
-Proof. exact unreversible_not_forwarded. Qed.
+  (r <- ts_report fuel E ms x v ;; dials_step fs defaults verify s r) = Ok (DS (d_view s) (d_errors s + 1)).
+Proof. intros. eapply unreversible_not_forwarded; eassumption. Qed.
 
-Theorem reversible_update_is_forwarded : forall fuel E ms fs defaults s x v u,
+Theorem reversible_update_is_forwarded : forall fuel E ms verify fs defaults s x v u,
   reverse fuel E ms x v = Ok u ->
-  (r <- ts_report fuel E ms x v ;; dials_step fs defaults s r) = dials_step fs defaults s (RValue u).
-Proof. exact reversible_is_forwarded. Qed.
+  (r <- ts_report fuel E ms x v ;; dials_step fs defaults verify s r) = dials_step fs defaults verify s (RValue u).
+Proof. intros. eapply reversible_is_forwarded; eassumption. Qed.
+
+(* the return value of the wrapped report methods (the config may have a
+   Verify method: `verify` is arbitrary).  For a reversible value the wrapped
+   ReportNewValue / BlockingReportNewValue behave - state reached AND value
+   returned to the reporting watcher - exactly like the native method of the
+   same name on the reverse-translated value ... *)
+Theorem wrapped_report_returns_as_native : forall fuel E ms verify x blocking fs defaults s v u,
+  reverse fuel E ms x v = Ok u ->
+  ts_report_ret fuel E ms x blocking fs defaults verify s v =
+  native_report_ret blocking fs defaults verify s u.
+Proof. intros. now apply report_ret_is_native. Qed.
+
+(* ... so a blocking report returns the verdict of its own re-stack: nil iff
+   the view now is the stack of the defaults with exactly this value and it
+   passed Verify; an error iff nothing was installed (view unchanged, one error
+   event) because stacking or Verify failed - the error is not swallowed *)
+Theorem wrapped_blocking_report_returns_verdict : forall fuel E ms verify x fs defaults s v u s' ret,
+  reverse fuel E ms x v = Ok u ->
+  ts_report_ret fuel E ms x true fs defaults verify s v = Ok (s', ret) ->
+  (ret = false -> compose fs defaults [snd u] = Ok (d_view s') /\ verify (d_view s') = true /\
+                  d_errors s' = d_errors s) /\
+  (ret = true -> d_view s' = d_view s /\ d_errors s' = (d_errors s + 1)%N /\
+                 (forall view, compose fs defaults [snd u] = Ok view -> verify view = false)).
+Proof. intros. eapply blocking_verdict; eassumption. Qed.
+
+(* the non-blocking report of a reversible value returns nil; an un-reversible
+   value makes both variants return an error (view unchanged, one error event) *)
+Theorem wrapped_report_other_returns : forall fuel E ms verify x fs defaults s v,
+  (forall u s' ret, reverse fuel E ms x v = Ok u ->
+     ts_report_ret fuel E ms x false fs defaults verify s v = Ok (s', ret) -> ret = false) /\
+  (forall c blocking, reverse fuel E ms x v = Err c ->
+     ts_report_ret fuel E ms x blocking fs defaults verify s v = Ok (DS (d_view s) (d_errors s + 1), true)).
+Proof.
+  intros. split; intros.
+  - eapply nonblocking_returns_nil; eassumption.
+  - eapply unreversible_returns_error; eassumption.
+Qed.
+
+(* and the state reached by a report is the one the monitor reaches for the forwarded report *)
+Theorem wrapped_report_state : forall fuel E ms verify x blocking fs defaults s v,
+  omap fst (ts_report_ret fuel E ms x blocking fs defaults verify s v) =
+  (r <- ts_report fuel E ms x v ;; dials_step fs defaults verify s r).
+Proof. intros. apply report_ret_state. Qed.
 
 (* errors are propagated, never swallowed: translation, inner Value, reverse
    translation, inner Watch *)
@@ -53,7 +96,7 @@ Theorem errors_propagate : forall fuel E ms t,
      reverse fuel E ms x v' = Err c -> ts_value fuel E ms t inner = Err c) /\
   (forall iw ttr x c, translate fuel ms t = Ok (ttr, x) -> iw ttr = Err c -> ts_watch fuel ms t iw = Err c) /\
   (forall iw c, translate fuel ms t = Err c -> ts_watch fuel ms t iw = Err c) /\
-  (forall fs defaults c, dials_config fs defaults (Err c) = Err c).
+  (forall verify fs defaults c, dials_config fs defaults verify (Err c) = Err c).
 Proof.
   intros. repeat split; intros.
   - now apply value_translate_error.
@@ -67,6 +110,10 @@ Print Assumptions wrapped_value_transparent.
 Print Assumptions wrapped_updates_transparent.
 Print Assumptions unreversible_update_is_an_error.
 Print Assumptions reversible_update_is_forwarded.
+Print Assumptions wrapped_report_returns_as_native.
+Print Assumptions wrapped_blocking_report_returns_verdict.
+Print Assumptions wrapped_report_other_returns.
+Print Assumptions wrapped_report_state.
 Print Assumptions errors_propagate.
 
 (* ===== PART B: Blank ===== *)
